@@ -56,6 +56,17 @@ Definition write_skel_all2 : list stmt :=
   [SCall PNop; SCall PNop; SLabel 1; SIf (CDeadlineSet WD) [SIf (CTimerNil) [SCall (PTimerNew WD); SAssign VC ETimerC; SCall PDeferTimerStop] [SCall (PTimerReset WD); SAssign VC ETimerC]] [SIf (CTimerNonNil) [SCall PTimerStop; SAssign VC ENil] []]; SLoop [SSelect 2 [(RcvWErr, [SReturn RSockErr]); (RcvDie, [SReturn RClosed])] (Some []); SLock 3; SCall PNop; SIf (CRoom) [SCall PSendAll; SCall PNop; SCall PFlush; SUnlock; SCall PNop; SReturn RWritten] []; SUnlock; SSelect 4 [(RcvWriteEvent, [SIf (CTimerNonNil) [SIf (CNotTimerStop) [SSelect 5 [(RcvTimerC, [])] (Some [])] []] []; SGoto 1]); (RcvC, [SIf (CDeadlineNotDue WD) [SGoto 1] []; SReturn RTimeout]); (RcvWErr, [SReturn RSockErr]); (RcvDie, [SReturn RClosed])] None]].
 
 
+(* The deadline setters as they were when these repairs were proposed and checked: they told the
+   blocked callers about a new deadline by posting the ONE data / window wake-up token (the
+   broadcast of type deadlineSignal replaced that later).  The skeletons above wake up on that
+   token only, so they are checked against the setters of their time. *)
+Definition set_deadline_skel_tok : list stmt :=
+  [SCall (PStore RD); SCall (PStore WD); SCall (PProc FNotifyReadEvent); SCall (PProc FNotifyWriteEvent); SReturn RNil].
+Definition set_read_deadline_skel_tok : list stmt :=
+  [SCall (PStore RD); SCall (PProc FNotifyReadEvent); SReturn RNil].
+Definition set_write_deadline_skel_tok : list stmt :=
+  [SCall (PStore WD); SCall (PProc FNotifyWriteEvent); SReturn RNil].
+
 Inductive fixset := FixF11 | FixF12 | FixF4 | FixF4Peek | FixAll | FixAll2.
 
 Definition fixed_skel (x : fixset) (f : proc) : list stmt :=
@@ -72,5 +83,8 @@ Definition fixed_skel (x : fixset) (f : proc) : list stmt :=
   | FWriteBuffers, FixF4Peek => write_skel_f4peek
   | FWriteBuffers, FixAll => write_skel_all
   | FWriteBuffers, FixAll2 => write_skel_all2
+  | FSetDeadline, _ => set_deadline_skel_tok
+  | FSetReadDeadline, _ => set_read_deadline_skel_tok
+  | FSetWriteDeadline, _ => set_write_deadline_skel_tok
   | _, _ => skel f
   end.
